@@ -107,6 +107,8 @@ inline void ledger_reset() {
 
 // KIND: 0 = TR (declares trivially_relocatable, not trivially copyable); 1 = NTR (stores self pointer);
 //       2 = NTR move-only; 3 = NTR with potentially-throwing move (C15/C17 only); 4 = like 3 but with a noexcept copy constructor
+//       asymmetric copies (moves noexcept): 5 = NTR, noexcept copy constructor, copy assignment may throw; 6 = TR, copy constructor may throw,
+//       noexcept copy assignment; 7 = NTR like 6; 8 = TR like 5   (code deciding from the nothrow-ness of one copy operation about the other)
 // The relocatability declaration is inherited, so that the non relocatable kinds make NO declaration at all (the "neither" category of the
 // properties: amc must fall back to std::is_trivially_copyable, which is false for them) instead of an explicit opt-out.
 struct DeclaresRelocatable {
@@ -115,8 +117,10 @@ struct DeclaresRelocatable {
 struct DeclaresNothing {};
 
 template <int KIND>
-struct Tracked : std::conditional<KIND == 0, DeclaresRelocatable, DeclaresNothing>::type {
-  static const bool kIsTR = KIND == 0;
+struct Tracked : std::conditional<KIND == 0 || KIND == 6 || KIND == 8, DeclaresRelocatable, DeclaresNothing>::type {
+  static const bool kIsTR = KIND == 0 || KIND == 6 || KIND == 8;
+  static const bool kNothrowCopyCtor = KIND == 4 || KIND == 5 || KIND == 8;
+  static const bool kNothrowCopyAssign = KIND == 6 || KIND == 7;
   int32_t key;
   uint32_t pay;
   uint32_t serial;
@@ -124,7 +128,7 @@ struct Tracked : std::conditional<KIND == 0, DeclaresRelocatable, DeclaresNothin
   const Tracked *self;
 
   // ---- helpers
-  static const char *kname() { return KIND == 0 ? "TR" : KIND == 1 ? "NTR" : KIND == 2 ? "NTR_MO" : KIND == 3 ? "NTR_TM" : "NTR_NCTM"; }
+  static const char *kname() { return KIND == 0 ? "TR" : KIND == 1 ? "NTR" : KIND == 2 ? "NTR_MO" : KIND == 3 ? "NTR_TM" : KIND == 4 ? "NTR_NCTM" : KIND == 5 ? "NTR_NCC" : KIND == 6 ? "TR_NCA" : KIND == 7 ? "NTR_NCA" : "TR_NCC"; }
   void born(Ev e) {
     if (g_next_serial >= kMaxSerial) harness_fail("serial space exhausted");
     if (g_check_raw_overwrite && !kIsTR) {
@@ -235,9 +239,9 @@ struct Tracked : std::conditional<KIND == 0, DeclaresRelocatable, DeclaresNothin
     o.key = kMovedFromKey;
     o.pay = 0xDEADu;
   }
-  Tracked(const Tracked &o) noexcept(KIND == 4) {
+  Tracked(const Tracked &o) noexcept(kNothrowCopyCtor) {
     static_assert(KIND != 2, "move-only");
-    if (KIND != 4) fault_point();
+    if (!kNothrowCopyCtor) fault_point();
     // an object constructed from itself: the source is the very slot under construction, i.e. raw memory (a relocated-from or shifted slot) that is
     // read as if it still held an element. A real type (a container, a string) would come out empty or corrupt.
     if (static_cast<const void *>(&o) == static_cast<const void *>(this)) violation("C02,C10", "ledger.constructed_from_itself", fmt("%s object copy-constructed from the slot it is being constructed in", kname()));
@@ -258,9 +262,9 @@ struct Tracked : std::conditional<KIND == 0, DeclaresRelocatable, DeclaresNothin
     o.pay = 0xDEADu;
     o.touch(EV_MCTOR);
   }
-  Tracked &operator=(const Tracked &o) {
+  Tracked &operator=(const Tracked &o) noexcept(kNothrowCopyAssign) {
     static_assert(KIND != 2, "move-only");
-    fault_point();
+    if (!kNothrowCopyAssign) fault_point();
     bool ok = check_live("copy-assign(dest)");
     o.check_live("read(copy-assign source)");
     key = o.key;
@@ -326,6 +330,10 @@ typedef Tracked<1> NTR;
 typedef Tracked<2> NTR_MO;
 typedef Tracked<3> NTR_TM;
 typedef Tracked<4> NTR_NCTM;  // noexcept copy, throwing move
+typedef Tracked<5> NTR_NCC;   // noexcept copy constructor, copy assignment may throw
+typedef Tracked<6> TR_NCA;    // copy constructor may throw, noexcept copy assignment
+typedef Tracked<7> NTR_NCA;
+typedef Tracked<8> TR_NCC;
 
 // the harness takes ownership of an object the library created (value returned by pop_back_val, node contents)
 template <int K>
@@ -478,7 +486,7 @@ template <int K>
 struct EI<Tracked<K> > {
   typedef Tracked<K> E;
   static const bool kTracked = true;
-  static const bool kRelocatable = K == 0;  // what the type declares - independent of amc's trait implementation
+  static const bool kRelocatable = K == 0 || K == 6 || K == 8;  // what the type declares - independent of amc's trait implementation
   static const bool kCopyable = K != 2;
   static const char *name() { return E::kname(); }
   static Val val(const E &e) { return Val(e.key, e.pay); }
